@@ -4,8 +4,8 @@ package main
 // panics (C06): TL-LOW, TL-UP, TL-BOUND, TL-OVF, TL-IDX, NIL-OBJ, PANIC-REACH.
 
 import (
-	"go/constant"
 	"fmt"
+	"go/constant"
 	"go/token"
 	"go/types"
 	"sort"
@@ -762,16 +762,35 @@ func (m *minLenEnv) minLenAt(v ssa.Value, facts []Cmp, depth int) int64 {
 	// facts about len(v)
 	for _, cmp := range facts {
 		x, y, op := cmp.X, cmp.Y, cmp.Op
-		if lenArgOf(y) == v {
-			x, y, op = y, x, swapOp(op)
+		shift := int64(0)
+		lenOrShifted := func(e ssa.Value) bool {
+			if lenArgOf(e) == v {
+				shift = 0
+				return true
+			}
+			// len(v) - c  /  len(v) + c compared with a constant
+			if bo, isBo := stripConv(e).(*ssa.BinOp); isBo && (bo.Op == token.SUB || bo.Op == token.ADD) && lenArgOf(bo.X) == v {
+				if cst, isK := constInt(bo.Y); isK {
+					shift = cst
+					if bo.Op == token.ADD {
+						shift = -cst
+					}
+					return true
+				}
+			}
+			return false
 		}
-		if lenArgOf(x) != v {
-			continue
+		if !lenOrShifted(x) {
+			if !lenOrShifted(y) {
+				continue
+			}
+			x, y, op = y, x, swapOp(op)
 		}
 		k, ok := constInt(y)
 		if !ok {
 			continue
 		}
+		k += shift
 		switch op {
 		case token.GEQ:
 			if k > best {
@@ -1219,6 +1238,8 @@ func rulePanicReach(c *Ctx) {
 						c.OK(key, P.pos(x.Pos()), "the pool only ever holds *ResourceBank (its New and every Put, decided by LK-POOL)")
 					case typeKey(x.AssertedType) == "compress/flate.Resetter":
 						c.OK(key, P.pos(x.Pos()), "compress/flate documents that the reader returned by NewReader implements Resetter")
+					case flateReaderAssert(x):
+						c.OK(key, P.pos(x.Pos()), "the direct result of flate.NewReader is asserted to an interface made of Read/Close and flate.Resetter's Reset, all of which compress/flate documents it to have")
 					default:
 						c.Bad(key, P.pos(x.Pos()), "an unchecked type assertion on the reading path can panic")
 					}
@@ -1349,4 +1370,35 @@ func (e *tlEnv) originFns(v ssa.Value, depth int) []string {
 	}
 	sort.Strings(out)
 	return out
+}
+
+// flateReaderAssert: the operand is the direct result of compress/flate's
+// NewReader/NewReaderDict and the asserted type is an interface all of whose
+// methods are those of io.ReadCloser and flate.Resetter.
+func flateReaderAssert(x *ssa.TypeAssert) bool {
+	call, ok := x.X.(*ssa.Call)
+	if !ok {
+		return false
+	}
+	g := call.Call.StaticCallee()
+	if g == nil || g.Pkg == nil || g.Pkg.Pkg.Path() != "compress/flate" || !strings.HasPrefix(g.Name(), "NewReader") {
+		return false
+	}
+	it, ok := x.AssertedType.Underlying().(*types.Interface)
+	if !ok {
+		return false
+	}
+	want := map[string]string{
+		"Read":  "func(p []byte) (n int, err error)",
+		"Close": "func() error",
+		"Reset": "func(r io.Reader, dict []byte) error",
+	}
+	for i := 0; i < it.NumMethods(); i++ {
+		m := it.Method(i)
+		sig := types.TypeString(m.Type(), func(p *types.Package) string { return p.Name() })
+		if w, ok := want[m.Name()]; !ok || w != sig {
+			return false
+		}
+	}
+	return it.NumMethods() > 0
 }
